@@ -332,6 +332,47 @@ def run(ctx):
                'the dispatch test is %s' % (gs.callee.rsplit('::', 2)[-2] + '::' + gs.name if not texty else
                '%s on accumulated TEXT (line %s): an event whose data is the empty string yields no frame, and "no data line yet" cannot be told from "one empty data line"' % (gs.name, gs.line)), line=gs.line)
 
+    # ---------------------------------------------------------------- C15.11
+    ctx.rule('C15.11', 'a data line is stored as it came: the text pushed onto the pending data of an event derives from the buffered line through the line-end CR strip (trim_end_matches with the constant \'\\r\'), the field-prefix strip and the leading-space strip only — no trailing / two-sided trim, no case change, no replace. Trailing whitespace is payload (the raw of a non-JSON event, the inner line ends of a multi-line payload), and a whitespace-only line is not the blank line that ends an event.')
+
+    def str_chain(fn, op, depth=12):
+        out = []
+        cur = [op]
+        seen = set()
+        while cur and depth > 0:
+            depth -= 1
+            nxt = []
+            for o_ in cur:
+                for x in sources(fn, o_, extra_transparent=(r'::to_string$', r'::to_owned$', r'::into$', r'String::from$', r'::as_str$', r'::as_ref$', r'::unwrap_or$', r'::unwrap_or_default$')):
+                    if x[0] == 'call' and (x[1], x[2]) not in seen:
+                        seen.add((x[1], x[2]))
+                        cs_ = [c_ for c_ in fn.sites() if c_.bb == x[2]]
+                        if cs_ and cs_[0].args:
+                            out.append(cs_[0])
+                            nxt.append(cs_[0].args[0])
+            cur = nxt
+        return out
+    n11 = 0
+    for pu in dec.sites():
+        if not re.search(r'Vec::<T, A>::push$|String::push_str$', pu.callee or '') or len(pu.args) < 2:
+            continue
+        if dec_field(dec.origin(pu.args[0], through_calls=(r'::deref_mut$',))[1].get('pl') if dec.origin(pu.args[0])[0] == 'rv' else None) != 'current_data' and 'current_data' not in str(dec.origin(pu.args[0], through_calls=(r'::deref_mut$',))):
+            continue
+        n11 += 1
+        chain = str_chain(dec, pu.args[1])
+        bad11 = []
+        for c_ in chain:
+            nm = c_.name
+            if nm in ('trim', 'trim_end', 'trim_matches', 'trim_ascii', 'trim_ascii_end', 'to_lowercase', 'to_uppercase', 'to_ascii_lowercase', 'to_ascii_uppercase', 'replace', 'replacen', 'strip_suffix', 'trim_right', 'trim_right_matches'):
+                bad11.append(c_)
+            if nm == 'trim_end_matches':
+                k = op_const(c_.args[1]) if len(c_.args) > 1 else None
+                if k is None or str(k.get('v')) not in ('13', "'\\r'", '\r', "'\r'"):
+                    bad11.append(c_)
+        ctx.ob('C15.11', dec, 'data-line-verbatim', not bad11,
+               'the stored data line goes through %s' % (' <- '.join(c_.name for c_ in chain) or 'no string operation') if not bad11 else
+               'the stored data line goes through %s (line %s): trailing whitespace of the payload is cut off — the frame no longer carries what the provider sent, and a whitespace-only line ends the event early' % (bad11[0].name, bad11[0].line), line=pu.line)
+    ctx.floor('C15.11', 'pushes onto the pending data lines', n11, 1)
     dec = dec_plain
     # ---------------------------------------------------------------- C15.6
     ctx.rule('C15.6', 'payload verbatim at the source: every ParsedEvent the decoder builds stores its raw / data / event fields straight from the constructor parameters (through Some / clone only) — never the result of a validation or normalisation helper (validation works on a copy; the frame carries what the provider sent). And in OpenResponsesSsePipe::push_sse_str every chunk reaches SseDecoder::push, unconditionally and unmodified: a chunk skipped because of what it contains (blank, padding) changes where events end.')
